@@ -374,7 +374,7 @@ def layouts(tier, down_so=None):
         dict(name="no-aslr", env={"C29_PAD": "y" * 17}, pre=["setarch", "x86_64", "-R"]),
         dict(name="tcache-off+mmap4096", env={"GLIBC_TUNABLES": "glibc.malloc.tcache_count=0:glibc.malloc.mmap_threshold=4096"}, pre=[]),
         dict(name="mmap-threshold-0", env={"GLIBC_TUNABLES": "glibc.malloc.mmap_threshold=0:glibc.malloc.mmap_max=4000000"}, pre=[], small=True),
-        dict(name="mmap-threshold-128+tcache-off", env={"GLIBC_TUNABLES": "glibc.malloc.mmap_threshold=128:glibc.malloc.tcache_count=0:glibc.malloc.mmap_max=4000000"}, pre=[]),
+        dict(name="mmap-threshold-128+tcache-off", env={"GLIBC_TUNABLES": "glibc.malloc.mmap_threshold=128:glibc.malloc.tcache_count=0:glibc.malloc.mmap_max=4000000"}, pre=[], small=True),
     ]
     if down_so:
         base.append(dict(name="descending-allocator", env={"LD_PRELOAD": down_so}, pre=[]))
@@ -495,7 +495,7 @@ def gather_inputs(ctx, rng, res):
         inputs.append(dict(name="macrogen%d" % i, files={"m%d.c" % i: gen_macro_file(rng)}, args=["m%d.c" % i], options=[]))
     cfg_small = ["bsd.c", "openmp.c", "lua.c", "cairo.c", "selinux.c", "libsigc++.cpp", "cppunit.cpp", "googletest.cpp", "emscripten.cpp", "kde.cpp", "sqlite3.c", "libcurl.c"]
     cfg_big = ["python.c", "std.c", "std.cpp", "posix.c", "gnu.c", "qt.cpp", "boost.cpp", "windows.cpp", "wxwidgets.cpp", "gtk.c", "openssl.c", "mfc.cpp", "opencv2.cpp"]
-    pick = rng.sample(cfg_small, 2) if ctx.tier != "thorough" else cfg_small + rng.sample(cfg_big, 4)
+    pick = rng.sample(cfg_small, 2) if ctx.tier != "thorough" else cfg_small + rng.sample(cfg_big, 3)
     for c in pick:
         p = os.path.join(repo, "test", "cfg", c)
         if not os.path.exists(p):
@@ -552,6 +552,11 @@ def one_input(ctx, res, drv, inp, k, no_aslr_ok, stats, down_so=None):
             d = trees[j]
             cmd = [ctx.cppcheck] + copts + inp["options"] + inp["args"]
             rc, so, se = run_layout(cmd, d, lay, no_aslr_ok)
+            if rc == -999 and j > 0:
+                # the run was cut off by the time limit of the check (slow layout on a loaded machine): there is no complete output
+                # to compare; counted, never taken for a difference
+                stats("layout-timeout:" + lay["name"])
+                continue
             if cname == "dump":
                 dumps = {}
                 for dd, _, fs in os.walk(d):
